@@ -96,7 +96,7 @@ for p in props:
 
 m = {
  "version": 1,
- "setup_cmd": "cd /verif/mc && CARGO_NET_OFFLINE=true cargo build --release --offline",
+ "setup_cmd": "cd /verif/mc && CARGO_NET_OFFLINE=true CARGO_TARGET_DIR=/verif/target cargo build --release --offline",
  "hooks": {
    "guard": "--cfg rust_dsymbols_verif",
    "enable": "RUSTFLAGS/--cfg rust_dsymbols_verif set in /verif/mc/.cargo/config.toml ([build] rustflags); the harness crate depends on /repo by path, so every ./check rebuilds /repo's working tree with the hooks on",
